@@ -62,6 +62,8 @@ type wconf struct {
 	VAlg    string      // the documented reading of Spec: algorithm ...
 	VKey    string      // ... and shared secret, with which the upstream verifies ("" when there is none)
 	Inject  [][2]string // inject_request_headers
+	Up      string      // upstream transport: "" / "http", "https" (HTTP/1.1 only), "h2" (https offering h2 by ALPN)
+	Via     string      // how an https upstream is named: "to" (`to: https://host`) or "scheme" (deployment scheme)
 	Note    string
 }
 
@@ -108,7 +110,19 @@ func baseConf(signer, hm, skip bool) wconf {
 
 func newWorld(dir string, auth *c.FakeAuth, keyPEM string, wc wconf) *world {
 	w := &world{wconf: wc}
-	w.backend = newBackend()
+	up := wc.Up
+	if up == "" {
+		up = "http"
+	}
+	w.backend = newBackend(up)
+	to, scheme := w.backend.HostPort(), ""
+	if up != "http" {
+		if wc.Via == "scheme" {
+			scheme = "https"
+		} else {
+			to = "https://" + to
+		}
+	}
 	opts := []string{
 		"      allowed_email_domains: [\"example.com\"]",
 		"      skip_auth_regex: [\"^/open\"]",
@@ -117,14 +131,17 @@ func newWorld(dir string, auth *c.FakeAuth, keyPEM string, wc wconf) *world {
 	if wc.Skip {
 		opts = append(opts, "      skip_request_signing: true")
 	}
+	if up != "http" {
+		opts = append(opts, "      tls_skip_verify: true")
+	}
 	if len(wc.Inject) > 0 {
 		opts = append(opts, "      inject_request_headers:")
 		for _, kv := range wc.Inject {
 			opts = append(opts, fmt.Sprintf("        %q: %q", kv[0], kv[1]))
 		}
 	}
-	yaml := fmt.Sprintf("- service: %q\n  default:\n    from: %s\n    to: %s\n    options:\n%s\n", wc.Service, fromHost, w.backend.HostPort(), strings.Join(opts, "\n"))
-	po := c.ProxyOpts{YAML: yaml, Valid: time.Hour, Dir: dir}
+	yaml := fmt.Sprintf("- service: %q\n  default:\n    from: %s\n    to: %s\n    options:\n%s\n", wc.Service, fromHost, to, strings.Join(opts, "\n"))
+	po := c.ProxyOpts{YAML: yaml, Valid: time.Hour, Dir: dir, Scheme: scheme}
 	if wc.Signer {
 		po.SignerKey = keyPEM
 	}
@@ -146,7 +163,7 @@ func newWorld(dir string, auth *c.FakeAuth, keyPEM string, wc wconf) *world {
 	w.coq = fmt.Sprintf("{| w_signer := %s; w_algs := %s; w_service := %s; w_environ := %s; w_skip := %s; w_inject := %s; w_cookie_name := %s; w_thost := %s |}",
 		signer, strs(acceptedAlgs()), str(wc.Service), environ, c.Bool(wc.Skip), c.List(inj), str(cookieName), str(w.backend.HostPort()))
 	w.js = map[string]interface{}{"signer": wc.Signer, "skip_request_signing": wc.Skip, "service": wc.Service,
-		"env": "SSO_CONFIG_" + strings.ToUpper(wc.EnvName), "spec": wc.Spec, "inject_request_headers": wc.Inject, "note": wc.Note}
+		"env": "SSO_CONFIG_" + strings.ToUpper(wc.EnvName), "spec": wc.Spec, "inject_request_headers": wc.Inject, "note": wc.Note, "upstream": up, "https_via": wc.Via}
 	if err != nil {
 		w.startErr = err
 		return w
@@ -514,10 +531,10 @@ func (w *world) emit(f *flight) c.Case {
 	if long && strings.HasSuffix(implRSA, string(s.Body)) {
 		rsaLit = "(" + str(sub(strings.TrimSuffix(implRSA, string(s.Body)))) + " ++ b)"
 	}
-	recv := fmt.Sprintf("{| o_method := %s; o_headers := %s; o_path := %s; o_rawquery := %s; o_body := %s |}",
-		str(got.Method), sortedHeaders(abbreviate(got.Header, pubKid), sub), str(gu.Path), str(gu.RawQuery), bodyLit(got.Body))
+	recv := fmt.Sprintf("{| o_proto := %s; o_method := %s; o_headers := %s; o_path := %s; o_rawquery := %s; o_body := %s |}",
+		str(got.Proto), str(got.Method), sortedHeaders(abbreviate(got.Header, pubKid), sub), str(gu.Path), str(gu.RawQuery), bodyLit(got.Body))
 	js["forwarded"] = true
-	js["received"] = map[string]interface{}{"method": got.Method, "uri": got.URI, "headers": headerJSON(got.Header), "body": short(got.Body)}
+	js["received"] = map[string]interface{}{"proto": got.Proto, "method": got.Method, "uri": got.URI, "headers": headerJSON(got.Header), "body": short(got.Body)}
 	js["rsa_verifies"] = vRSA
 	js["kid_published"] = kidOK
 	js["hmac_result"] = int(res)
@@ -882,6 +899,34 @@ func (w *world) overlap(r *c.Rng, sizes []int, expect bool, gomax1 bool) []c.Cas
 	return cases
 }
 
+// transportSpecs: what an upstream transport could re-frame.
+func transportSpecs(r *c.Rng) []*spec {
+	var l []*spec
+	for i, ck := range [][]string{
+		{"@S"}, {"a=1; @S"}, {"a=1; @S; b=2"}, {"a=1; b=2; @S; c=3"}, {"a=1; b=2; c=3; @S; d=\"4 5\""},
+		{"a=1", "@S", "b=2"}, {"a=1; b=2", "c=3; @S"},
+	} {
+		s := baseSpec(fmt.Sprintf("transport: cookie shape %d", i), "GET", fmt.Sprintf("/t/c%d", i))
+		s.Cookies = ck
+		l = append(l, s)
+	}
+	l = append(l, baseSpec("transport: multi-valued covered headers", "GET", "/t/mv", hdr{"Authorization", "Bearer a"}, hdr{"Authorization", "Bearer b, c"},
+		hdr{"Content-Type", "text/a"}, hdr{"content-type", "text/b"}, hdr{"Date", ""}, hdr{"Content-Md5", "x"}, hdr{"Content-Md5", ""}))
+	s := baseSpec("transport: sized body", "POST", "/t/b?x=1")
+	s.Mode, s.Body, s.Cookies = "sized", binBody(r, 5000), []string{"k=v; @S; z=9"}
+	l = append(l, s)
+	s = baseSpec("transport: chunked body", "PUT", "/t/ch")
+	s.Mode, s.Body, s.Chunks, s.Cookies = "chunked", binBody(r, 3000), 3, []string{"k=v; @S; z=9"}
+	l = append(l, s)
+	s = baseSpec("transport: Expect: 100-continue", "POST", "/t/exp", hdr{"Expect", "100-continue"})
+	s.Mode, s.Body = "sized", []byte("expected body over the upstream transport")
+	l = append(l, s)
+	s = baseSpec("transport: empty POST", "POST", "/t/e")
+	s.Mode, s.Body = "sized", []byte{}
+	l = append(l, s)
+	return l
+}
+
 func main() {
 	a := c.ParseArgs()
 	c.Quiet()
@@ -918,6 +963,22 @@ func main() {
 		wc.Inject, wc.Note = inj, "inject_request_headers"
 		injWorlds = append(injWorlds, build(wc))
 	}
+	// worlds whose upstream is https: HTTP/1.1 only, or offering h2 by ALPN; named by `to: https://...` or by
+	// the deployment scheme; all with tls_skip_verify
+	var tlsWorlds []*world
+	for _, t := range []struct {
+		up, via    string
+		signer, hm bool
+		inj        [][2]string
+	}{
+		{"https", "to", true, true, nil}, {"h2", "to", true, true, nil}, {"h2", "scheme", true, true, nil},
+		{"h2", "to", true, false, nil}, {"h2", "to", false, true, nil},
+		{"https", "scheme", true, true, injectSets[0]}, {"h2", "to", true, true, injectSets[3]},
+	} {
+		wc := baseConf(t.signer, t.hm, false)
+		wc.Up, wc.Via, wc.Inject, wc.Note = t.up, t.via, t.inj, "upstream transport "+t.up+" via "+t.via
+		tlsWorlds = append(tlsWorlds, build(wc))
+	}
 	// worlds over the signing-key grammar (some are refused at start: an observation too)
 	nKey := 10
 	if thorough {
@@ -929,7 +990,7 @@ func main() {
 			keyWorlds = append(keyWorlds, w)
 		}
 	}
-	for _, w := range append(append([]*world{}, worlds...), injWorlds...) {
+	for _, w := range append(append(append([]*world{}, worlds...), injWorlds...), tlsWorlds...) {
 		if w.startErr != nil {
 			c.Must(fmt.Errorf("base configuration refused: %v", w.startErr))
 		}
@@ -960,6 +1021,14 @@ func main() {
 	for _, w := range keyWorlds {
 		cases = append(cases, w.run(corp[0]), w.run(corp[1]))
 	}
+	// upstream transport: 0-4 cookies left after the session cookie is stripped (one or several Cookie lines),
+	// multi-valued covered headers, bodies sized / chunked / Expect: 100-continue — against every https / h2
+	// upstream and, for parity, the plain-http base world
+	for _, w := range append([]*world{worlds[0]}, tlsWorlds...) {
+		for _, s := range transportSpecs(r) {
+			cases = append(cases, w.run(s))
+		}
+	}
 	// overlapping requests
 	sizePool := []int{1, 7, 64, 1000, 4096, 65536}
 	nGroups := 14
@@ -968,7 +1037,7 @@ func main() {
 		sizePool = append(sizePool, 262144)
 	}
 	for g := 0; g < nGroups; g++ {
-		w := []*world{worlds[0], worlds[2], worlds[1], injWorlds[0]}[g%4]
+		w := []*world{worlds[0], worlds[2], worlds[1], injWorlds[0], tlsWorlds[1]}[g%5]
 		k := 2 + r.Intn(3)
 		first := sizePool[r.Intn(len(sizePool))]
 		if first > 4096 && !thorough && g > 2 {
@@ -1000,8 +1069,10 @@ func main() {
 			w = worlds[0]
 		case x < 0.65:
 			w = worlds[r.Intn(len(worlds))]
-		case x < 0.88:
+		case x < 0.80:
 			w = injWorlds[r.Intn(len(injWorlds))]
+		case x < 0.92:
+			w = tlsWorlds[r.Intn(len(tlsWorlds))]
 		default:
 			w = keyWorlds[r.Intn(len(keyWorlds))]
 		}
